@@ -67,6 +67,8 @@ SEGMS = {
     'single-edge': np.array([[4, 0, 0, 0], [0, 0, 2, 2], [7, 7, 0, 2]]),
     'gaps': np.array([[2, 2, 0, 9], [0, 0, 0, 9], [5, 5, 5, 0]]),
     'disconnected': np.array([[3, 0, 3], [0, 1, 0], [3, 1, 1]]),
+    # a diagonal two-pixel label: its bounding box holds non-segment pixels
+    'diag': np.array([[4, 0, 0], [0, 4, 2], [0, 2, 2]]),
     'wide': np.array([[0, 1, 1, 0, 2], [1, 1, 0, 2, 2], [0, 0, 0, 0, 2],
                       [6, 6, 6, 0, 0]]),
 }
@@ -594,6 +596,8 @@ def cases(tier, seed):
         add(s, mask=False, nan=False, negmax=1, renumber=(i % 3 == 1))
         if s not in ('nested', 'wide'):
             add(s, mask=False, nan=False, negmax=0, minmax=True)
+    # a label whose pixels are all masked / NaN while its box is not
+    add('diag', True, nan=True, negmax=0)
     add('touching', False, nan=False, conv=True, negmax=1)
     add('touching', False, nan=True, conv=True, negmax=0)
     add('gaps', False, nan=True, conv=True, negmax=0, order=True)
